@@ -1,6 +1,14 @@
-//! SPIKE: deterministic scheduler for real OS threads. Exactly one registered thread runs at a
-//! time (it "holds the baton"); every blocking operation of the shims is a scheduling point at
-//! which a seeded chooser picks the next runnable thread.
+//! thread-sim kernel: a deterministic scheduler for real OS threads.
+//!
+//! Exactly one registered thread runs at a time (it "holds the baton"). Every blocking operation of
+//! the shims — channel send/recv, thread start, join, pool task pick-up, and the harness' own
+//! sink/source calls (`yield_now`) — is a scheduling point at which a seeded strategy chooses the
+//! next thread among those whose wait condition holds. Enabledness is computed from the exact
+//! channel state (the channels are ours), so a deadlock ("no thread enabled, some not finished")
+//! is detected precisely, not by timeout.
+//!
+//! Every choice with more than one option is recorded as (options, chosen); the list replays the
+//! run exactly (`Strategy::Replay`) and is what the minimiser edits.
 
 use std::{
     cell::RefCell,
@@ -24,30 +32,60 @@ struct Th {
     status: Status,
     cond: Option<Cond>,
     label: &'static str,
+    /// PCT priority (higher runs first)
+    prio: i64,
+    is_worker: bool,
 }
 
-pub enum Chooser {
-    Random(u64),
-    Replay(Vec<u32>, usize),
+/// How the next thread is chosen among the enabled ones.
+#[derive(Clone, Debug)]
+pub enum ThreadPolicy {
+    /// uniformly at random
+    Random,
+    /// PCT: random distinct priorities; at each of the `change_points` (scheduling step indices)
+    /// the running thread's priority drops below all others
+    Pct { change_points: Vec<u64> },
+    /// keep running the lowest-numbered enabled thread (thread 0 = caller): lets the submitter fill
+    /// the in-flight window before any worker runs
+    LowestFirst,
+    /// keep running the highest-numbered enabled thread
+    HighestFirst,
+}
+
+/// How a pool worker picks among the queued tasks.
+#[derive(Clone, Debug)]
+pub enum PickPolicy {
+    Random,
+    Fifo,
+    Lifo,
+    /// pick queue index `perm[k % perm.len()] % queue_len` for the k-th pick
+    Pattern(Vec<u32>),
+}
+
+#[derive(Clone, Debug)]
+pub struct Strategy {
+    pub seed: u64,
+    pub threads: ThreadPolicy,
+    pub picks: PickPolicy,
+    /// explicit decision list: when present it overrides the policies until exhausted
+    pub replay: Option<Vec<u32>>,
+}
+
+struct Chooser {
+    state: u64,
+    strategy: Strategy,
+    replay_pos: usize,
+    picks_done: usize,
 }
 
 impl Chooser {
-    fn pick(&mut self, n: usize) -> usize {
-        match self {
-            Chooser::Random(s) => {
-                *s = s.wrapping_add(0x9e3779b97f4a7c15);
-                let mut z = *s;
-                z = (z ^ (z >> 30)).wrapping_mul(0xbf58476d1ce4e5b9);
-                z = (z ^ (z >> 27)).wrapping_mul(0x94d049bb133111eb);
-                z ^= z >> 31;
-                (z % n as u64) as usize
-            }
-            Chooser::Replay(v, i) => {
-                let c = v.get(*i).copied().unwrap_or(0) as usize;
-                *i += 1;
-                c.min(n - 1)
-            }
-        }
+    fn rnd(&mut self, n: usize) -> usize {
+        self.state = self.state.wrapping_add(0x9e37_79b9_7f4a_7c15);
+        let mut z = self.state;
+        z = (z ^ (z >> 30)).wrapping_mul(0xbf58_476d_1ce4_e5b9);
+        z = (z ^ (z >> 27)).wrapping_mul(0x94d0_49bb_1331_11eb);
+        z ^= z >> 31;
+        ((z as u128 * n as u128) >> 64) as usize
     }
 }
 
@@ -55,16 +93,21 @@ pub struct Inner {
     threads: Vec<Th>,
     current: usize,
     chooser: Chooser,
-    /// (step, index chosen among enabled, number enabled, tid chosen, label)
-    pub trace: Vec<(u64, u32, u32, u32, &'static str)>,
+    /// (options, chosen) for every choice with more than one option, in order
+    pub decisions: Vec<(u32, u32)>,
     by_os_id: HashMap<ThreadId, usize>,
     pool_size: usize,
     pool_queue: VecDeque<(u64, Task)>,
     pool_workers: usize,
     pool_shutdown: bool,
     next_task: u64,
+    /// task ids in the order workers picked them up (= completion order: tasks run atomically)
     pub task_order: Vec<u64>,
-    steps: u64,
+    pub steps: u64,
+    pub switches: u64,
+    pub max_queue: usize,
+    step_bound: u64,
+    next_prio: i64,
 }
 
 pub struct Sim {
@@ -86,9 +129,29 @@ pub fn ctx() -> Option<Ctx> {
     CTX.with(|c| c.borrow().clone())
 }
 
+pub fn in_simulation() -> bool {
+    CTX.with(|c| c.borrow().is_some())
+}
+
+fn die(kind: &str, g: &Inner) -> ! {
+    let states: Vec<_> = g
+        .threads
+        .iter()
+        .enumerate()
+        .map(|(i, t)| format!("t{i}:{:?}@{}", t.status, t.label))
+        .collect();
+    eprintln!("{kind} at step {}: {}", g.steps, states.join(" "));
+    // blocked OS threads cannot be unwound safely: the worker process ends here and the
+    // orchestrator attributes the death to the announced case
+    std::process::abort();
+}
+
 impl Sim {
     fn schedule(&self, g: &mut Inner) {
         g.steps += 1;
+        if g.steps > g.step_bound {
+            die("SIM STEP BOUND exceeded (livelock)", g);
+        }
         let mut enabled = Vec::new();
         for i in 0..g.threads.len() {
             if g.threads[i].status == Status::Waiting {
@@ -105,21 +168,46 @@ impl Sim {
                 g.current = usize::MAX;
                 return;
             }
-            let states: Vec<_> = g
-                .threads
-                .iter()
-                .enumerate()
-                .map(|(i, t)| format!("t{i}:{:?}@{}", t.status, t.label))
-                .collect();
-            eprintln!("SIM DEADLOCK at step {}: {}", g.steps, states.join(" "));
-            std::process::exit(3);
+            die("SIM DEADLOCK", g);
         }
-        let k = if enabled.len() == 1 { 0 } else { g.chooser.pick(enabled.len()) };
+        let k = if enabled.len() == 1 {
+            0
+        } else {
+            let n = enabled.len();
+            let k = if let Some(list) = g.chooser.strategy.replay.as_ref().filter(|l| g.chooser.replay_pos < l.len()) {
+                let c = list[g.chooser.replay_pos] as usize;
+                g.chooser.replay_pos += 1;
+                c.min(n - 1)
+            } else {
+                match g.chooser.strategy.threads.clone() {
+                    ThreadPolicy::Random => g.chooser.rnd(n),
+                    ThreadPolicy::LowestFirst => 0,
+                    ThreadPolicy::HighestFirst => n - 1,
+                    ThreadPolicy::Pct { change_points } => {
+                        if change_points.contains(&g.steps) {
+                            // demote whoever ran last
+                            let cur = g.current;
+                            if cur < g.threads.len() {
+                                g.next_prio -= 1;
+                                g.threads[cur].prio = -1_000_000 + g.next_prio;
+                            }
+                        }
+                        let mut best = 0;
+                        for (j, &t) in enabled.iter().enumerate() {
+                            if g.threads[t].prio > g.threads[enabled[best]].prio {
+                                best = j;
+                            }
+                        }
+                        best
+                    }
+                }
+            };
+            g.decisions.push((n as u32, k as u32));
+            k
+        };
         let tid = enabled[k];
-        if enabled.len() > 1 {
-            let label = g.threads[tid].label;
-            g.trace
-                .push((g.steps, k as u32, enabled.len() as u32, tid as u32, label));
+        if tid != g.current {
+            g.switches += 1;
         }
         g.threads[tid].status = Status::Running;
         g.threads[tid].cond = None;
@@ -128,8 +216,8 @@ impl Sim {
 }
 
 impl Ctx {
-    /// Scheduling point: the calling thread gives up the baton and resumes once `cond` holds
-    /// and the chooser picks it.
+    /// Scheduling point: the calling thread gives up the baton and resumes once `cond` holds and
+    /// the strategy picks it.
     pub fn block_until(&self, label: &'static str, cond: impl Fn(&Inner) -> bool + Send + 'static) {
         let sim = &self.sim;
         let mut g = sim.inner.lock().unwrap();
@@ -146,6 +234,7 @@ impl Ctx {
     }
 }
 
+/// A scheduling point with no wait condition (used by the harness' sink/source objects).
 pub fn yield_now(label: &'static str) {
     if let Some(ctx) = ctx() {
         ctx.block_until(label, |_| true);
@@ -167,56 +256,70 @@ pub fn before_join<T>(handle: &std::thread::JoinHandle<T>) {
     }
 }
 
+fn spawn_sim<F, T>(f: F, is_worker: bool) -> std::thread::JoinHandle<T>
+where
+    F: FnOnce() -> T + Send + 'static,
+    T: Send + 'static,
+{
+    let ctx = ctx().expect("spawn_sim outside a simulation");
+    let sim = ctx.sim.clone();
+    let tid = {
+        let mut g = sim.inner.lock().unwrap();
+        // PCT priorities: a fresh random priority per thread, drawn from the run's PRNG
+        let prio = (g.chooser.rnd(1 << 30)) as i64;
+        g.threads.push(Th {
+            status: Status::Waiting,
+            cond: Some(Box::new(|_| true)),
+            label: "start",
+            prio,
+            is_worker,
+        });
+        g.threads.len() - 1
+    };
+    let child_sim = sim.clone();
+    let h = std::thread::spawn(move || {
+        let sim = child_sim;
+        CTX.with(|c| *c.borrow_mut() = Some(Ctx { sim: sim.clone(), tid }));
+        {
+            let mut g = sim.inner.lock().unwrap();
+            while !(g.current == tid && g.threads[tid].status == Status::Running) {
+                g = sim.cv.wait(g).unwrap();
+            }
+        }
+        let r = panic::catch_unwind(AssertUnwindSafe(f));
+        {
+            let mut g = sim.inner.lock().unwrap();
+            g.threads[tid].status = Status::Finished;
+            g.threads[tid].label = if r.is_ok() { "finished" } else { "panicked" };
+            sim.schedule(&mut g);
+            sim.cv.notify_all();
+        }
+        CTX.with(|c| *c.borrow_mut() = None);
+        match r {
+            Ok(v) => v,
+            Err(p) => panic::resume_unwind(p),
+        }
+    });
+    sim.inner.lock().unwrap().by_os_id.insert(h.thread().id(), tid);
+    // the spawning thread reaches a scheduling point too: the child may run first
+    ctx.block_until("spawn", |_| true);
+    h
+}
+
 pub mod thread {
     pub use std::thread::JoinHandle;
 
-    use super::*;
-
+    /// `std::thread::spawn` whose child is registered with the simulator (real OS thread, real
+    /// `JoinHandle`). Outside a simulation it is plain `std::thread::spawn`.
     pub fn spawn<F, T>(f: F) -> JoinHandle<T>
     where
         F: FnOnce() -> T + Send + 'static,
         T: Send + 'static,
     {
-        let Some(ctx) = ctx() else {
+        if super::ctx().is_none() {
             return std::thread::spawn(f);
-        };
-        let sim = ctx.sim.clone();
-        let tid = {
-            let mut g = sim.inner.lock().unwrap();
-            g.threads.push(Th {
-                status: Status::Waiting,
-                cond: Some(Box::new(|_| true)),
-                label: "start",
-            });
-            g.threads.len() - 1
-        };
-        let child_sim = sim.clone();
-        let h = std::thread::spawn(move || {
-            let sim = child_sim;
-            CTX.with(|c| *c.borrow_mut() = Some(Ctx { sim: sim.clone(), tid }));
-            {
-                let mut g = sim.inner.lock().unwrap();
-                while !(g.current == tid && g.threads[tid].status == Status::Running) {
-                    g = sim.cv.wait(g).unwrap();
-                }
-            }
-            let r = panic::catch_unwind(AssertUnwindSafe(f));
-            {
-                let mut g = sim.inner.lock().unwrap();
-                g.threads[tid].status = Status::Finished;
-                g.threads[tid].label = "finished";
-                sim.schedule(&mut g);
-                sim.cv.notify_all();
-            }
-            CTX.with(|c| *c.borrow_mut() = None);
-            match r {
-                Ok(v) => v,
-                Err(p) => panic::resume_unwind(p),
-            }
-        });
-        sim.inner.lock().unwrap().by_os_id.insert(h.thread().id(), tid);
-        ctx.block_until("spawn", |_| true);
-        h
+        }
+        super::spawn_sim(f, false)
     }
 }
 
@@ -232,12 +335,13 @@ pub fn pool_spawn(f: Task) -> Result<(), Task> {
         let id = g.next_task;
         g.next_task += 1;
         g.pool_queue.push_back((id, f));
+        g.max_queue = g.max_queue.max(g.pool_queue.len());
         let n = g.pool_size - g.pool_workers;
         g.pool_workers = g.pool_size;
         n
     };
     for _ in 0..to_spawn {
-        thread::spawn(worker_loop);
+        spawn_sim(worker_loop, true);
     }
     Ok(())
 }
@@ -252,7 +356,28 @@ fn worker_loop() {
                 None
             } else {
                 let n = g.pool_queue.len();
-                let k = if n == 1 { 0 } else { g.chooser.pick(n) };
+                let k = if n == 1 {
+                    0
+                } else {
+                    let k = if let Some(list) = g.chooser.strategy.replay.as_ref().filter(|l| g.chooser.replay_pos < l.len()) {
+                        let c = list[g.chooser.replay_pos] as usize;
+                        g.chooser.replay_pos += 1;
+                        c.min(n - 1)
+                    } else {
+                        match g.chooser.strategy.picks.clone() {
+                            PickPolicy::Random => g.chooser.rnd(n),
+                            PickPolicy::Fifo => 0,
+                            PickPolicy::Lifo => n - 1,
+                            PickPolicy::Pattern(p) => {
+                                let i = g.chooser.picks_done;
+                                (p[i % p.len()] as usize) % n
+                            }
+                        }
+                    };
+                    g.decisions.push((n as u32, k as u32));
+                    k
+                };
+                g.chooser.picks_done += 1;
                 let t = g.pool_queue.remove(k);
                 if let Some((id, _)) = &t {
                     let id = *id;
@@ -263,6 +388,7 @@ fn worker_loop() {
         };
         match task {
             Some((_, f)) => {
+                // tasks run atomically (no scheduling point inside): completion order = pick order
                 let _ = panic::catch_unwind(AssertUnwindSafe(f));
             }
             None => break,
@@ -272,47 +398,74 @@ fn worker_loop() {
 
 pub struct Outcome<R> {
     pub result: std::thread::Result<R>,
-    pub trace: Vec<(u64, u32, u32, u32, &'static str)>,
+    pub decisions: Vec<(u32, u32)>,
     pub task_order: Vec<u64>,
     pub steps: u64,
+    pub switches: u64,
+    pub threads: usize,
+    pub max_queue: usize,
 }
 
-/// Runs `scenario` on the calling thread as simulated thread 0.
-pub fn run<R>(chooser: Chooser, pool_size: usize, scenario: impl FnOnce() -> R) -> Outcome<R> {
+/// Runs `scenario` on the calling thread as simulated thread 0 under `strategy` with a pool of
+/// `pool_size` simulated workers (what `rayon::current_num_threads()` reports).
+pub fn run<R>(strategy: Strategy, pool_size: usize, step_bound: u64, scenario: impl FnOnce() -> R) -> Outcome<R> {
+    let seed = strategy.seed;
     let sim = Arc::new(Sim {
         inner: Mutex::new(Inner {
             threads: vec![Th {
                 status: Status::Running,
                 cond: None,
                 label: "main",
+                prio: 1 << 29,
+                is_worker: false,
             }],
             current: 0,
-            chooser,
-            trace: Vec::new(),
+            chooser: Chooser {
+                state: seed,
+                strategy,
+                replay_pos: 0,
+                picks_done: 0,
+            },
+            decisions: Vec::new(),
             by_os_id: HashMap::new(),
-            pool_size,
+            pool_size: pool_size.max(1),
             pool_queue: VecDeque::new(),
             pool_workers: 0,
             pool_shutdown: false,
             next_task: 0,
             task_order: Vec::new(),
             steps: 0,
+            switches: 0,
+            max_queue: 0,
+            step_bound,
+            next_prio: 0,
         }),
         cv: Condvar::new(),
     });
-    let ctx = Ctx { sim: sim.clone(), tid: 0 };
+    let ctx = Ctx {
+        sim: sim.clone(),
+        tid: 0,
+    };
     CTX.with(|c| *c.borrow_mut() = Some(ctx.clone()));
     let result = panic::catch_unwind(AssertUnwindSafe(scenario));
     sim.inner.lock().unwrap().pool_shutdown = true;
+    // every simulated thread must come to an end: a thread still blocked here is a deadlock
     ctx.block_until("drain", |g| {
-        g.threads.iter().skip(1).all(|t| t.status == Status::Finished)
+        g.threads
+            .iter()
+            .skip(1)
+            .all(|t| t.status == Status::Finished)
     });
     CTX.with(|c| *c.borrow_mut() = None);
     let mut g = sim.inner.lock().unwrap();
+    let _ = g.threads.iter().filter(|t| t.is_worker).count();
     Outcome {
         result,
-        trace: std::mem::take(&mut g.trace),
+        decisions: std::mem::take(&mut g.decisions),
         task_order: std::mem::take(&mut g.task_order),
         steps: g.steps,
+        switches: g.switches,
+        threads: g.threads.len(),
+        max_queue: g.max_queue,
     }
 }
